@@ -10,6 +10,7 @@
     if_false_removes if_true_transparent for_eq_unrolled choose_first_match_only
     attr_form_eq_elem_form_partial replace_eq_content_strip_partial
     extract_flat_eq_tree construction_pipeline_eq_compile text_parse_eq_tree text_pipeline_eq_compile
+    direlem_attrs_witness
 -/
 import Genshi.Lemmas.TmplSimMain
 import Genshi.Lemmas.TmplSimRev
@@ -366,6 +367,30 @@ theorem replace_eq_content_strip_partial (pre : List Dir) (x : XExpr) (tag : Nam
   simp only [compileNode, sortBy_implIdx_of_sorted _ hs1, sortBy_implIdx_of_sorted _ hs2,
     attach_ctl_prefix pre hpre, attach, getLast_body, IOk.mkSub_iff]
   exact apply_prefix_congr pre hpre (replace_tail_eq x tag attrs) st o st'
+
+/-! ### known finding C04-direlem-attrs: a `py:` attribute on a directive element
+
+  `<py:if test="1" py:strip=""><b>x</b></py:if>`: the template AST (and with it `impl_eq_doc`)
+  covers directive elements *without* further `py:` attributes.  The parsed stream below is
+  that template; the flat extraction pass removes the directive element's own START/END
+  (`substream[1:-1]`) before the attribute directive runs, so `py:strip` strips the first child
+  element instead: the model renders `x`, where the documented order (strip applies to the
+  element it is written on, which is not output anyway) gives `<b>x</b>`. -/
+
+private def direlemStream : List PEv :=
+  [.start (pyTag (.if_ (.lit (.atom (.int 1))))) [] [.strip none] (some (.if_ (.lit (.atom (.int 1))))),
+   .start (plainTag ['b']) [] [] none, .text ['x'], .end_ (plainTag ['b']),
+   .end_ (pyTag (.if_ (.lit (.atom (.int 1)))))]
+
+private def direlemDoc : List TNode :=
+  [.delem (.if_ (.lit (.atom (.int 1)))) [.elem ['b'] [] [] [.text ['x']]]]
+
+/-- The model mirrors the defect: implementation on the parsed stream ≠ documentation. -/
+theorem direlem_attrs_witness :
+    (run 50 (.flat (toCEvs (prepareRs (extractFlat direlemStream)))) (St.init [])).toOption.map (·.1)
+      = some [tx ['x']] ∧
+    docRender 50 direlemDoc [] = .ok [startEv ['b'] [], tx ['x'], endEv ['b']] := by
+  constructor <;> rfl
 
 /-! ### non-vacuity -/
 
